@@ -99,9 +99,9 @@ class PyLcdBus(PyLcd):
 
 
 class RsLcd:
-    def __init__(self, vh: Vh):
+    def __init__(self, vh: Vh, capture: bool = False):
         self.vh = vh
-        vh.call("lcd.new")
+        vh.call("lcd.new", capture=bool(capture))
 
     def _fix(self, r):
         for c in r["st"]:
@@ -117,7 +117,8 @@ class RsLcd:
 
 
 def drive_one(impl: str, acts: List[Dict[str, Any]], vh: Vh, tid: int) -> List[Dict[str, Any]]:
-    lcd = PyLcd() if impl == "py" else (PyLcdBus() if impl == "pybus" else RsLcd(vh))
+    lcd = PyLcd() if impl == "py" else (PyLcdBus() if impl == "pybus" else RsLcd(vh, capture=impl.endswith("+cap")))
+    impl = impl.split("+")[0]
     ev = [{"tid": tid, "ev": "Init", "impl": impl}]
     for a in acts:
         if a["ev"] == "W":
@@ -134,12 +135,14 @@ def drive_shard(shard_id: int, items, extra):
     events, meta = [], {}
     tid = shard_id * 10_000_000
     try:
-        for acts in items:
+        for k, acts in enumerate(items):
             per = {}
-            impls = ("py", "rs") if extra != "bus" else ("pybus",)
+            # every other sequence also runs on a Rust controller whose display-write capture is switched on (an observer of the
+            # data writes that the front ends use; the protocol must not notice it)
+            impls = (("py", "rs") + (("rs+cap",) if k % 2 else ())) if extra != "bus" else ("pybus",)
             for impl in impls:
                 tid += 1
-                meta[tid] = {"impl": impl, "acts": acts}
+                meta[tid] = {"impl": impl.split("+")[0], "variant": impl, "acts": acts}
                 e = drive_one(impl, acts, vh, tid)
                 per[impl] = e
                 events.extend(e)
@@ -165,7 +168,7 @@ def campaign(cr: CheckRun, items, tag: str, extra=None) -> None:
     for b, meta in bad:
         shape = _shape(b, meta)
         cr.violation(f"{b['clause']}:{meta['impl']}:{shape}", f"{meta['impl']} LCD: {b['clause']} differs from the HD61202 protocol ({shape}) at step {b['line']}: {b['detail']}",
-                     {"impl": meta["impl"], "acts": meta["acts"], "clause": b["clause"], "detail": b["detail"], "shape": shape})
+                     {"impl": meta["impl"], "variant": meta.get("variant", meta["impl"]), "acts": meta["acts"], "clause": b["clause"], "detail": b["detail"], "shape": shape})
     cr.cov["traces_validated_against_impl"] += ntr
     cr.cov["evaluations"] += nev
     cr.cov.setdefault("campaigns", []).append({"name": tag, "traces": ntr, "events": nev, "rejected_steps": len(bad)})
@@ -441,7 +444,7 @@ def replay(path: str) -> int:
         return 1 if cr.violations else 0
     vh = Vh()
     try:
-        ev = drive_one(rec["impl"], rec["acts"], vh, 1)
+        ev = drive_one(rec.get("variant") or rec["impl"], rec["acts"], vh, 1)
     finally:
         vh.close()
     bad = vlib.tlc_judge_trace("C15", SD, "TraceLcd", "TraceLcd.cfg", ev, "replay")
